@@ -47,7 +47,26 @@ def load_kf(prop):
     return out
 
 
-def run(prop, fmt, features, kf_classes=None, argv=None, reader=None, label="round trip", share=1.0):
+def mutate(d, i):
+    """a later chapter of the document's history, through the public writers of the model: times set on activities,
+    an attribute and an asserted type added to records already printed, a record added to every container"""
+    import datetime
+    from prov.model import ProvActivity, ProvElement
+    from prov.constants import PROV
+    t = datetime.datetime(2001, 2, 3, 4, 5, 6) + datetime.timedelta(days=i)
+    for c in [d] + list(d.bundles):
+        recs = list(c.get_records())
+        for k, r in enumerate(recs):
+            if isinstance(r, ProvActivity) and (i + k) % 2 == 0 and not r.get_startTime() and not r.get_endTime():
+                r.set_time(t, t + datetime.timedelta(hours=1) if k % 2 else None)
+            if (i + k) % 3 == 0:
+                r.add_attributes({PROV["label"]: "added later #%d\nsecond line \"q\"" % k})
+            if isinstance(r, ProvElement) and (i + k) % 3 == 1:
+                r.add_asserted_type(PROV["Plan"])
+        c.entity(PROV["late-%d" % i], {PROV["value"]: i})
+
+
+def run(prop, fmt, features, kf_classes=None, argv=None, reader=None, label="round trip", share=1.0, history=False):
     if kf_classes is None:
         kf_classes = load_kf(prop)
     ap = argparse.ArgumentParser()
@@ -63,7 +82,18 @@ def run(prop, fmt, features, kf_classes=None, argv=None, reader=None, label="rou
     n = 0
     nontrivial = set()
     samples = []
-    for i, d in common.documents(a.seed, count, features):
+    def cases():
+        yield -1, common.wellknown_document(), ""
+        for i, d in common.documents(a.seed, count, features):
+            yield i, d, ""
+            if history:
+                try:
+                    mutate(d, i)
+                except Exception:  # noqa: the writers refused the change (their business: C05/C18)
+                    continue
+                yield i, d, "printed-then-changed:"
+
+    for i, d, phase in cases():
         kw = opts[i % len(opts)]
         n += 1
         before = common.strict(d)
@@ -91,7 +121,7 @@ def run(prop, fmt, features, kf_classes=None, argv=None, reader=None, label="rou
             fk = (cls, kf)
             if fk not in failures or len(common.describe(d)) < failures[fk]["size"]:
                 failures[fk] = {"key": cls, "kf": kf, "clauses": ["round-trip", cls.split(":")[0]], "size": len(common.describe(d)),
-                                 "what": "%s %s (%s) of generated document #%d (seed %d) changes the content: %s" % (fmt, label, kw, i, a.seed, cls),
+                                 "what": "%s%s %s (%s) of generated document #%d (seed %d) changes the content: %s" % (phase, fmt, label, kw, i, a.seed, cls),
                                  "detail": detail, "features": d._features, "provn": common.describe(d)[:3000], "text": (text or "")[:3000],
                                  "history": ["seed=%d case=%d options=%s" % (a.seed, i, kw)]}
     if a.replay:
@@ -102,8 +132,9 @@ def run(prop, fmt, features, kf_classes=None, argv=None, reader=None, label="rou
             print("still failing:", f["what"])
         return 1 if bad else 0
     res = {"evaluations": n, "distinct": len(nontrivial), "samples": samples,
-           "rule": "seeded generator of the C01 space (replay/common.py Gen; features: %s), %d documents of <= 5 records per container, writer options rotated over %d combinations; distinct = distinct strict contents" % (
-               "all" if features is None else sorted(features), count, len(opts)),
+           "rule": "one hand-built document using the usual vocabularies (rdf, rdfs, owl, dcterms, foaf, skos) + seeded generator of the C01 space (replay/common.py Gen; features: %s), %d documents of <= 5 records per container, writer options rotated over %d combinations%s; distinct = distinct strict contents" % (
+               "all" if features is None else sorted(features), count, len(opts),
+               "; each document is then changed through set_time / add_attributes / add_asserted_type / a new record per container and printed again" if history else ""),
            "failures_found": len(failures), "failures": list(failures.values())}
     if a.out:
         json.dump(res, open(a.out, "w"), indent=1)
